@@ -461,11 +461,24 @@ def run(ctx):
             desc, why = REVIEWED_IDENTITIES[f.id]
             # the difference must be exactly the reviewed pair of atoms: everything else must cancel
             okrev = True
+            # the part of the identity that encoded_len contributes must be exactly the reviewed formula (local-variable names
+            # do not occur in it); the other side is the opaque count the axiom speaks about
+            WANT = {
+                "<idpf::IdpfPublicShare<VI, VL> as codec::Encode>::encode": "div_ceil(2*len(self.inner_correction_words) + 2, 8)",
+                "<vdaf::poplar1::Poplar1AggregationParam as codec::Encode>::encode": "div_ceil(self.level + 1, 8)*len(self.prefixes)",
+            }.get(f.id)
             for a, c in E:
                 for a2, c2 in L:
                     if isinstance(c, Poly) and isinstance(c2, Poly):
                         d = c - c2
                         if len(d.m) != 2 or sorted(abs(v) for v in d.m.values()) != [1, 1] or sum(d.m.values()) != 0:
+                            okrev = False
+                            continue
+                        neg = Poly()
+                        for k, v in d.m.items():
+                            if v < 0:
+                                neg.m[k] = -v
+                        if WANT is not None and repr(neg) != WANT:
                             okrev = False
             if okrev:
                 ctx.ok(rule, key, "equal modulo the reviewed identity %s (%s)" % (desc, why), loc=f.loc)
@@ -482,6 +495,36 @@ def run(ctx):
     order_rules(ctx)
 
     tag_rules(ctx)
+
+    # ---------------- R-C07.K count fidelity: an element count read from the wire is used AS READ as the number of items decoded
+    # (a count that is clamped, capped or otherwise adjusted lets several count prefixes decode to the same value)
+    rule = "R-C07.K"
+    import ppa as _P
+    nk = 0
+    for f in sorted((x for x in prog.fns if x.name in ("decode", "decode_with_param") and x.impl_trait in ("codec::Decode", "codec::ParameterizedDecode")
+                     and x.body is not None and not prog.is_test_util(x)), key=lambda x: x.id):
+        g = ctx.guards(f)
+        for bi, t in f.body.calls():
+            if t.callee.name not in ("take", "with_capacity", "decode_fixlen_items") or not t.args:
+                continue
+            ce = g.eb.call_expr(t)
+            if ce[0] != "call":
+                continue
+            for a in ce[2]:
+                if not _P.mentions_wire(a):
+                    continue
+                nk += 1
+                key = "%s:%s:%s#%d" % (rule, f.id, t.callee.name, nk)
+                core = a
+                while isinstance(core, tuple) and (core[0] in ("cast", "conv", "try") or
+                                                   (core[0] == "call" and str(core[1]).split("::")[-1] in ("map_err", "try_into", "try_from", "into", "from", "ok_or", "ok_or_else") and core[2])):
+                    core = core[1] if core[0] in ("cast", "conv", "try") else core[2][0]
+                if isinstance(core, tuple) and core[0] == "call" and (_P.WIRE_DECODE.match(core[3] or "") or _P.WIRE_DECODE.match(core[1] or "")):
+                    ctx.ok(rule, key, "%s uses the wire count as read: %s" % (t.callee.name, fmt(a)[:100]), loc="%s:%s" % (f.file, t.line))
+                else:
+                    ctx.bad(rule, key, "%s: the item count handed to %s is the wire count adjusted (%s): count prefixes other than the canonical "
+                                       "one decode to the same value" % (f.id, t.callee.name, fmt(a)[:160]), loc="%s:%s" % (f.file, t.line))
+    ctx.floor(rule, 1)
 
     # ---------------- R-C07.C canonical-form guards
     rule = "R-C07.C"
